@@ -68,6 +68,7 @@ type vfThrCase struct {
 	Ops       []vfOp   `json:"ops"`
 	StartFail []int    `json:"start_fail,omitempty"` // ordinals of base StartRecording calls that fail
 	CheckFail []int    `json:"check_fail,omitempty"` // ordinals of base CheckCanRecord calls that fail
+	StopFail  []int    `json:"stop_fail,omitempty"`  // ordinals of base StopRecording calls that fail
 	Sessions  bool     `json:"sessions"`             // caller keeps to start; write*; stop
 }
 
@@ -90,12 +91,19 @@ type vfBase struct {
 	fail   map[int]bool
 	checks    int
 	checkFail map[int]bool
+	stops     int
+	stopFail  map[int]bool
 }
 
 var vfInjected = errors.New("injected start failure")
 
 func (b *vfBase) StopRecording() error {
-	b.calls = append(b.calls, vfBaseCall{C: 'P', At: b.clock.now, Req: b.req})
+	n := b.stops
+	b.stops++
+	b.calls = append(b.calls, vfBaseCall{C: 'P', At: b.clock.now, Req: b.req, Err: b.stopFail[n]})
+	if b.stopFail[n] {
+		return vfInjected
+	}
 	return nil
 }
 func (b *vfBase) StartRecording(bg *cptvframe.Frame, thr uint16) error {
@@ -180,7 +188,10 @@ type vfThrRun struct {
 
 func vfRunThrottle(c vfThrCase) *vfThrRun {
 	clock := &vfClock{now: time.Date(2021, 1, 1, 0, 0, 0, 0, time.UTC)}
-	base := &vfBase{clock: clock, fail: map[int]bool{}, checkFail: map[int]bool{}}
+	base := &vfBase{clock: clock, fail: map[int]bool{}, checkFail: map[int]bool{}, stopFail: map[int]bool{}}
+	for _, i := range c.StopFail {
+		base.stopFail[i] = true
+	}
 	for _, i := range c.StartFail {
 		base.fail[i] = true
 	}
@@ -563,6 +574,16 @@ func vfGenC06(t *rapid.T) vfThrCase {
 		}
 		c.Ops = ops
 		c.CheckFail = rapid.SliceOfN(rapid.IntRange(0, 12), 0, 4).Draw(t, "checkfail")
+	}
+	// the wrapped recorder's stop failing (the file counts as closed all the same), singly or for a while
+	switch rapid.IntRange(0, 5).Draw(t, "stopfail") {
+	case 0:
+		c.StopFail = rapid.SliceOfN(rapid.IntRange(0, 6), 1, 3).Draw(t, "stopfails")
+	case 1:
+		from := rapid.IntRange(0, 4).Draw(t, "stopfailfrom")
+		for i := 0; i < 6; i++ {
+			c.StopFail = append(c.StopFail, from+i)
+		}
 	}
 	c.StartFail = []int{}
 	n := rapid.SampledFrom([]int{0, 0, 1, 2, 3}).Draw(t, "nfail")
